@@ -52,7 +52,7 @@ CONFIG = dict(
         "C10_forwarded_raw_valid", "C10_derefs_accounted", "C10_assertions_known", "C10_media_tables_reviewed", "C10_order_facts", "C10_raw_members_checked",
         "checkValid_no_crash",
         "C10_total_needs_dialout_guard", "C10_total_needs_fixed_label", "C10_total_needs_nil_guard",
-        "C10_total_needs_validation", "C10_wellformed_needs_raw_check"]],
+        "C10_total_needs_validation", "C10_wellformed_needs_raw_check", "C10_total_needs_media_review"]],
     generated=["ShapesClient", "ShapesMedia"],
     harness=dict(pkg="signaling", test="TestVerifC10", timeout=1500),
     stats=c10_stats,
